@@ -497,6 +497,40 @@ fn detach_variable_value(value: &Value) -> Value {
   }
 }
 
+// The indexed assignment kernels write element by element and panic at the
+// first index that is out of range, so a bad index has to be rejected before
+// the first write; otherwise the statement fails with part of it done.
+// `ixes` holds one index per subscript position (`x[ix]` or `x[row_ix,col_ix]`).
+#[cfg(feature = "subscript")]
+fn check_assign_bounds(sink: &Value, ixes: &[Value]) -> MResult<()> {
+  let shape = sink.shape();
+  if shape.len() != 2 {
+    return Ok(());
+  }
+  let limits = match ixes.len() {
+    1 => vec![shape[0] * shape[1]],
+    2 => vec![shape[0], shape[1]],
+    _ => return Ok(()),
+  };
+  for (ix, limit) in ixes.iter().zip(limits) {
+    let in_bounds = match ix {
+      Value::Index(i) => {
+        let i = *i.borrow();
+        i >= 1 && i <= limit
+      }
+      #[cfg(feature = "matrix")]
+      Value::MatrixIndex(m) => m.as_vec().iter().all(|i| *i >= 1 && *i <= limit),
+      #[cfg(all(feature = "matrix", feature = "bool"))]
+      Value::MatrixBool(m) => m.as_vec().len() <= limit,
+      _ => true,
+    };
+    if !in_bounds {
+      return Err(MechError::new(IndexOutOfBoundsError, None).with_compiler_loc());
+    }
+  }
+  Ok(())
+}
+
 macro_rules! op_assign {
   ($fxn_name:ident, $op:tt) => {
     paste!{
@@ -555,6 +589,10 @@ macro_rules! op_assign {
               },
               x => todo!("{:?}", x),
             };
+            if let Err(err) = check_assign_bounds(&fxn_input[0], &fxn_input[2..]) {
+              plan.borrow_mut().pop();
+              return Err(err);
+            }
             let plan_brrw = plan.borrow();
             let mut new_fxn = &plan_brrw.last().unwrap();
             new_fxn.solve();
@@ -757,6 +795,10 @@ pub fn subscript_ref(sbscrpt: &Subscript, sink: &Value, source: &Value, env: Opt
         },
         _ => unreachable!(),
       };
+      if let Err(err) = check_assign_bounds(&fxn_input[0], &fxn_input[2..]) {
+        plan.borrow_mut().pop();
+        return Err(err);
+      }
       let plan_brrw = plan.borrow();
       let mut new_fxn = &plan_brrw.last().unwrap();
       new_fxn.solve();
